@@ -1,4 +1,4 @@
-//@@ unit c01_emit properties=C01,C14 nodegrade
+//@@ unit c01_emit properties=C01,C14,C02 nodegrade
 #![allow(unused_imports, dead_code, unused_variables, unused_mut)]
 use vstd::prelude::*;
 
